@@ -1,7 +1,7 @@
 """The session machine (spec/Session.tla): exhaustive run of the machine itself (MC), behaviours chosen by
 `tlc -simulate` from GenSpec, re-validated and annotated with the expected observations by Trace_Session, and stepped
 through the real library by the Go harness (`harness session`).  Shared by C09 and C10."""
-import glob, json, os, re, shutil
+import glob, json, os, re, resource, shutil, subprocess
 import vlib, universe
 
 KEYS = 4
@@ -76,7 +76,7 @@ def behaviours(seed, num, depth):
 
 
 QUICK = (400, 24)
-THOROUGH = (4000, 32)
+THOROUGH = (2000, 32)
 
 
 def warm():
@@ -91,7 +91,21 @@ def replay(pid, tier, seed):
     steps, lpath, meta = behaviours(int(seed) % 1000 + 1, num, depth)
     out = os.path.join(vlib.BUILD, "work", pid)
     os.makedirs(out, exist_ok=True)
-    summ = json.loads(vlib.run_harness(["session", steps, lpath, out], timeout=1800))
+    exe = os.path.join(vlib.BUILD, "bin", "harness")
+    def limit():   # a change that makes a writer run away must not take the machine's memory with it
+        resource.setrlimit(resource.RLIMIT_AS, (12 << 30, 12 << 30))
+    p = subprocess.run(["timeout", "-k", "10", "900", exe, "session", steps, lpath, out], cwd=vlib.ROOT, env=vlib.GOENV, capture_output=True, text=True, preexec_fn=limit)
+    if p.returncode != 0:
+        # a fatal error of the Go runtime (dead lock, stack overflow, concurrent map access) inside a call into the library
+        # is the library's doing: the sessions are plain sequences of public calls.  Anything else is the harness's problem.
+        m = re.search(r"fatal error: [^\n]*", p.stderr)
+        lib = re.search(r"^github\.com/tidwall/geojson[^\n]*", p.stderr, re.M)
+        if m and lib and p.stderr.find(lib.group(0)) < (p.stderr.find("\nmain.") if "\nmain." in p.stderr else len(p.stderr)):
+            ev = {"op": "session", "what": "fatal", "step": -1, "history": ["(see stderr excerpt)"], "got": m.group(0) + " in " + lib.group(0)[:200],
+                  "exp": "every call returns", "stderr": p.stderr[:3000], "steps_file": steps}
+            return [ev], {"steps": meta["actions"], "fatal": m.group(0)}, meta, mcm
+        raise vlib.Inconclusive("harness session failed rc=%d:\n%s" % (p.returncode, p.stderr[-3000:]))
+    summ = json.loads(p.stdout)
     events = [json.loads(l) for l in open(os.path.join(out, "session.events.ndjson"))]
     if summ["steps"] != meta["actions"]:
         raise vlib.Inconclusive("session replay stepped %d of %d actions" % (summ["steps"], meta["actions"]))
